@@ -132,13 +132,13 @@ func init() {
 		"(*sync.Once).Do":           extOnceDo,
 		"(*sync.Pool).Get":          extPoolGet,
 		"(*sync.Pool).Put":          extNop,
-		"(*sync.Mutex).Lock":        extNop,
-		"(*sync.Mutex).Unlock":      extNop,
+		"(*sync.Mutex).Lock":        extLockHB,
+		"(*sync.Mutex).Unlock":      extUnlockHB,
 		"(*sync.Mutex).TryLock":     func(fr *frame, args []value) value { return true },
-		"(*sync.RWMutex).Lock":      extNop,
-		"(*sync.RWMutex).Unlock":    extNop,
-		"(*sync.RWMutex).RLock":     extNop,
-		"(*sync.RWMutex).RUnlock":   extNop,
+		"(*sync.RWMutex).Lock":      extLockHB,
+		"(*sync.RWMutex).Unlock":    extUnlockHB,
+		"(*sync.RWMutex).RLock":     extLockHB,
+		"(*sync.RWMutex).RUnlock":   extUnlockHB,
 		"(*sync.Map).Load":          extSyncMapLoad,
 		"(*sync.Map).Store":         extSyncMapStore,
 		"(*sync.Map).LoadOrStore":   extSyncMapLoadOrStore,
@@ -515,10 +515,25 @@ func extOnceDo(fr *frame, args []value) value {
 	}
 	_ = st
 	if fr.i.onceDone[key] {
+		fr.i.hbAcquire(key)
 		return nil
 	}
 	fr.i.onceDone[key] = true
 	call(fr.i, fr, token.NoPos, args[1], nil)
+	fr.i.hbRelease(key)
+	return nil
+}
+
+// Uninstrumented mutexes (standard library, dependencies): no blocking is
+// modelled (no scheduling point lies inside their critical sections), but
+// the happens-before edge is.
+func extLockHB(fr *frame, args []value) value {
+	fr.i.hbAcquire(hbKey(args[0]))
+	return nil
+}
+
+func extUnlockHB(fr *frame, args []value) value {
+	fr.i.hbRelease(hbKey(args[0]))
 	return nil
 }
 
@@ -607,6 +622,7 @@ func extAtomicLoad(fr *frame, args []value) value {
 	if p == nil {
 		panic(runtimePanic{"runtime error: invalid memory address or nil pointer dereference"})
 	}
+	fr.i.hbAcquire(p)
 	return *p
 }
 
@@ -615,18 +631,23 @@ func extAtomicStore(fr *frame, args []value) value {
 	if p == nil {
 		panic(runtimePanic{"runtime error: invalid memory address or nil pointer dereference"})
 	}
+	fr.i.hbRelease(p)
 	*p = args[1]
 	return nil
 }
 
 func extAtomicAdd(fr *frame, args []value) value {
 	p := args[0].(*value)
+	fr.i.hbAcquire(p)
+	defer fr.i.hbRelease(p)
 	*p = fr.i.binop(token.ADD, nil, *p, args[1])
 	return *p
 }
 
 func extAtomicCAS(fr *frame, args []value) value {
 	p := args[0].(*value)
+	fr.i.hbAcquire(p)
+	defer fr.i.hbRelease(p)
 	if fr.i.decide(fr.i.equalsV(nil, *p, args[1]), BrIf, "atomic CAS") {
 		*p = args[2]
 		return true
@@ -636,6 +657,8 @@ func extAtomicCAS(fr *frame, args []value) value {
 
 func extAtomicSwap(fr *frame, args []value) value {
 	p := args[0].(*value)
+	fr.i.hbAcquire(p)
+	defer fr.i.hbRelease(p)
 	old := *p
 	*p = args[1]
 	return old
